@@ -95,6 +95,9 @@ pub fn run(c: &Case) -> Outcome {
     if c.cfg.nla && !c.select_ssl && c.challenge.flags & ntlm::NEG_UNICODE == 0 {
         out.label("oem-challenge");
     }
+    if c.cfg.nla && !c.select_ssl && c.challenge.flags & ntlm::MANDATORY != ntlm::MANDATORY {
+        out.label("reduced-challenge-flags");
+    }
     if run.client_timeout || run.report.timeout {
         out.fail("inconclusive:timeout", "a socket timeout hit (machine too slow or a hang); not counted as a violation");
         return out;
@@ -190,7 +193,7 @@ pub fn run(c: &Case) -> Outcome {
                             }
                         }
                     }
-                    for (i, t) in rep.nla.ts_requests.iter().enumerate().take(2) {
+                    for (i, t) in rep.nla.ts_requests.iter().enumerate() {
                         if find(t, &n) {
                             out.fail("secrets:password-in-tsrequest", format!("the {} password occurs in TSRequest #{}", name, i));
                             return out;
@@ -243,7 +246,7 @@ pub fn run(c: &Case) -> Outcome {
                     }
                 }
             }
-            for (i, t) in rep.nla.ts_requests.iter().enumerate().take(2) {
+            for (i, t) in rep.nla.ts_requests.iter().enumerate() {
                 if find(t, n) {
                     out.fail("secrets:password-in-tsrequest", format!("the {} password occurs in TSRequest #{}", name, i));
                     return out;
@@ -496,6 +499,7 @@ pub fn gen_case(s: &mut Src, opts: Option<u8>) -> Case {
     let bits = opts.unwrap_or_else(|| s.below(32) as u8);
     let reuse = opts.is_none() && s.chance(64);
     let select_ssl = s.chance(56);
+    let reduce = if opts.is_none() && s.chance(72) { 1 + (s.u8() & 0x3F) } else { 0 };
     let order_choice = s.u16();
     let domain = gen_name(s, 12);
     let user = {
@@ -515,6 +519,10 @@ pub fn gen_case(s: &mut Src, opts: Option<u8>) -> Case {
     // a server that answers in the OEM character set (no NTLMSSP_NEGOTIATE_UNICODE): only with ASCII identities, see C15
     if domain.is_ascii() && user.is_ascii() && password.is_ascii() && s.chance(64) {
         challenge.flags &= !ntlm::NEG_UNICODE;
+    }
+    // a server that does not offer sealing, signing, 128-bit keys ...: the credentials must be sealed all the same
+    if reduce > 0 {
+        crate::props::c15::reduce_flags(reduce - 1, &mut challenge);
     }
     let cfg = ClientCfg {
         width: 1024,
@@ -586,6 +594,24 @@ fn matrix() -> Vec<Case> {
             v.push(c);
         }
     }
+    // servers that announce less than full session security: every subset of {seal, sign, always-sign, key exchange, 128, 56}
+    // absent from the CHALLENGE, under the four NLA option combinations that send credentials or blanks
+    for subset in 1..64u8 {
+        for bits in [1u8, 1 | 4, 1 | 16, 1 | 8] {
+            let seed = [subset ^ 0x61, bits, 9, 77, 31, 250, 4, 180, 66, 10, 20, 30, 222, 111, 5, 77, 200];
+            let mut c = gen_case(&mut Src::new(&seed), Some(bits));
+            c.cfg.password = format!("W34k-p4ss-{}-{}", subset, bits);
+            c.cfg.user = "Administrator".into();
+            c.cfg.domain = "CONTOSO".into();
+            c.challenge.flags |= ntlm::NEG_UNICODE | ntlm::MANDATORY | ntlm::NEG_56;
+            for (i, f) in [ntlm::NEG_SEAL, ntlm::NEG_SIGN, ntlm::NEG_ALWAYS_SIGN, ntlm::NEG_KEY_EXCH, ntlm::NEG_128, ntlm::NEG_56].iter().enumerate() {
+                if subset & (1 << i) != 0 {
+                    c.challenge.flags &= !f;
+                }
+            }
+            v.push(c);
+        }
+    }
     // a Connector used under one option combination, then reconfigured to another: every ordered pair of the 16
     // combinations of {NLA, restricted admin, blank credentials, auto logon}
     for a in 0..16u8 {
@@ -653,6 +679,8 @@ pub fn check(rep: &Report) {
     rep.require("connections", "blank-creds", 100);
     rep.require("connections", "hash", 100);
     rep.require("connections", "completed", 1000);
+    rep.require("connections", "reduced-challenge-flags", 100);
+    rep.require("option-matrix", "reduced-challenge-flags", 200);
     rep.require("option-matrix", "completed", 500);
     rep.require("option-matrix", "oem-challenge", 50);
     rep.require("option-matrix", "connector-reused", 200);
